@@ -117,6 +117,15 @@ Theorem C11_histogram_quantile_independent_of_sample_order : forall (pinf ninf :
 Proof. exact BucketProofs.hist_step_order_independent. Qed.
 Print Assumptions C11_histogram_quantile_independent_of_sample_order.
 
+(* the quantile aggregation sorts the samples of a group: on exact numbers its value does not depend on the
+   order in which the series arrive (QuantileProofs.v) *)
+From Verif Require RangeArith QuantileProofs.
+Theorem C11_quantile_independent_of_sample_order : forall (pinf ninf q : Qcanon.Qc) l l',
+  Permutation.Permutation l l' ->
+  RangeArith.gquantile Qcanon.Qc BucketProofs.qcops pinf ninf q l = RangeArith.gquantile Qcanon.Qc BucketProofs.qcops pinf ninf q l'.
+Proof. exact QuantileProofs.quantile_order_independent. Qed.
+Print Assumptions C11_quantile_independent_of_sample_order.
+
 (* PARTIAL. Proved: independence of the shard count and of batching for every
    operator tree, with each operator's Next taken as atomic and the coalesce
    merging in operator order (as the code does since the fix recorded in
